@@ -1,7 +1,7 @@
 """C07: the same EQL query evaluated in memory and translated to SQL over the persisted objects (EQLCore.tla, family sql)."""
 from harness.core import worker_main
 from harness.models import vorm
-from harness.models.vmodel import VA, VC, VM
+from harness.models.vmodel import VA, VC, VM, VCU
 
 from sqlalchemy.orm import Session
 from krrood.ormatic.utils import create_engine
@@ -41,6 +41,17 @@ def setup(args):
             s.add(to_dao(o, state=state))
         s.commit()
     STATE.update(objs=objs, engine=engine, vcs=vcs)
+    # a second database for the string conditions: labels with LIKE wildcards, case variants, substrings of each other
+    slabels = ["C1", "C", "1", "", "c1", "C_", "%", "xC1", "c", "_1"]
+    sobjs = {f"s{i + 1}": VA(name=f"s{i + 1}", label=l) for i, l in enumerate(slabels)}
+    engine2 = create_engine("sqlite:///:memory:")
+    gen.Base.metadata.create_all(engine2)
+    with Session(engine2) as s:
+        state = ToDAOState()
+        for o in sobjs.values():
+            s.add(to_dao(o, state=state))
+        s.commit()
+    STATE.update(sobjs=sobjs, engine2=engine2)
     return None
 
 
@@ -123,12 +134,15 @@ STR_ATOMS = {
     "in1": lambda x: in_(x.label, ["C1"]), "in1t": lambda x: in_(x.label, ("C1",)), "in2": lambda x: in_(x.label, ["C1", "C"]),
     "inC": lambda x: in_(x.label, ["C"]), "inE": lambda x: in_(x.label, [""]), "eqC": lambda x: x.label == "C",
     "neC1": lambda x: x.label != "C1", "c1": lambda x: contains(["C1"], x.label), "a0": lambda x: x.a == 0, "b1": lambda x: x.b >= 1,
+    # a TEXT as the container: Python's substring test (exact, case sensitive; "_" and "%" are ordinary characters)
+    "subT": lambda x: in_(x.label, "aC1b"), "conT": lambda x: contains("aC1b", x.label), "subU": lambda x: in_(x.label, "x_1%"),
 }
 
 
 def strings(case):
-    """Membership of a string attribute in literal collections (also of one element). Oracle: in-memory evaluation."""
-    objs = STATE["objs"]
+    """Membership of a string attribute in literal collections (also of one element) and in a text. Oracle: in-memory evaluation
+    (over the second database, whose labels contain LIKE wildcards and case variants)."""
+    objs = STATE["sobjs"]
 
     def q(dom):
         x = let(VA, dom, name="x")
@@ -140,7 +154,7 @@ def strings(case):
         out["memory"] = sorted(r.name for r in q(list(objs.values())).evaluate())
     except Exception as ex:
         out["memory_error"] = type(ex).__name__
-    with Session(STATE["engine"]) as s:
+    with Session(STATE["engine2"]) as s:
         try:
             t = eql_to_sql(q([]), s)
             out["sql"] = sorted(r.name for r in t.evaluate())
@@ -209,7 +223,34 @@ def joins(case):
     return {"joins": out}
 
 
+def unmapped(case):
+    """A variable typed with a class that is NOT mapped (VCU, a subclass of the mapped VC that ORMatic was not given): the
+    translation must be rejected - or select what in-memory evaluation over the persisted objects selects (nothing: none of them
+    is a VCU)."""
+    vcs = STATE["vcs"]
+
+    def q(dom):
+        v = let(VCU, dom, name="v")
+        return an(entity(v, v.tag == case["unmapped_tag"]))
+    out = {}
+    try:
+        out["memory"] = sorted(n for n, o in vcs.items() if any(o is r for r in q(list(vcs.values())).evaluate()))
+    except Exception as ex:
+        out["memory_error"] = type(ex).__name__
+    with Session(STATE["engine"]) as s:
+        try:
+            t = eql_to_sql(q([]), s)
+            out["sql"] = sorted(str(getattr(r, "tag", "?")) + "/" + str(getattr(r, "tag2", "?")) for r in t.evaluate())
+        except EQLTranslationError as ex:
+            out["rejected"] = type(ex).__name__
+        except Exception as ex:
+            out["sql_error"] = f"{type(ex).__name__}: {str(ex)[:160]}"
+    return {"chains": out}
+
+
 def handle(case):
+    if "unmapped_tag" in case:
+        return unmapped(case)
     if "join" in case:
         return joins(case)
     if "satoms" in case:
